@@ -14,6 +14,8 @@ pub mod c07;
 pub mod c08;
 pub mod c09;
 pub mod c10;
+pub mod c11;
+pub mod c12;
 pub mod c13;
 pub mod c14;
 pub mod c15;
@@ -35,6 +37,8 @@ pub fn run(prop: &str, cfg: &Cfg) -> Outcome {
         "C08" => c08::run(cfg),
         "C09" => c09::run(cfg),
         "C10" => c10::run(cfg),
+        "C11" => c11::run(cfg),
+        "C12" => c12::run(cfg),
         "C13" => c13::run(cfg),
         "C14" => c14::run(cfg),
         "C15" => c15::run(cfg),
@@ -61,6 +65,8 @@ pub fn replay(prop: &str, cfg: &Cfg, case: &Value) -> Vec<Violation> {
         "C08" => c08::replay(cfg, case),
         "C09" => c09::replay(cfg, case),
         "C10" => c10::replay(cfg, case),
+        "C11" => c11::replay(cfg, case),
+        "C12" => c12::replay(cfg, case),
         "C13" => c13::replay(cfg, case),
         "C14" => c14::replay(cfg, case),
         "C15" => c15::replay(cfg, case),
